@@ -1359,10 +1359,19 @@ int Intersection::compare(const Basic &o) const
 
 RCP<const Set> Intersection::set_union(const RCP<const Set> &o) const
 {
+    // Distributing the union over the operands and intersecting again
+    // undoes itself whenever no partial union simplifies (set_intersection
+    // distributes back over unions): keep the union unevaluated then.
     set_set container;
+    bool simplified = false;
     for (auto &a : container_) {
-        container.insert(a->set_union(o));
+        auto u = a->set_union(o);
+        if (not is_a<Union>(*u))
+            simplified = true;
+        container.insert(u);
     }
+    if (not simplified)
+        return union_fallback(rcp_from_this_cast<const Set>(), o);
     return SymEngine::set_intersection(container);
 }
 
